@@ -200,6 +200,29 @@ async def one_message(part, kind, c, b, r):
             part.stat('partial-inside')
     else:
         part.violation('monitor', f'{kind}: no {pkey!r} in the response: {sorted(items)!r}', rep, signature='partial-missing')
+    # several ranges in one command, some with the same origin: every one of them is answered with its own slice
+    ranges = [(r.randint(0, len(want) + 1), r.randint(1, len(want) + 2)) for _ in range(r.randint(2, 3))]
+    if r.random() < 0.6:
+        ranges.append((ranges[0][0], ranges[0][1] + r.randint(1, 5)))
+    r.shuffle(ranges)
+    ranges = list(dict.fromkeys(ranges))
+    out = await c.send(b'a UID FETCH %d (' % uid + b' '.join(b'BODY.PEEK[]<%d.%d>' % rg for rg in ranges) + b')\r\n')
+    got_pairs = []
+    try:
+        for resp in imapresp.parse(out):
+            if len(resp) >= 4 and imapresp.atom(resp[0]) == b'*' and imapresp.atom(resp[2]) == b'FETCH' and isinstance(resp[3], list):
+                it = resp[3]
+                for k in range(0, len(it) - 1, 2):
+                    nm = imapresp.atom(it[k]) or b''
+                    if nm.upper().startswith(b'BODY[]<') and isinstance(it[k + 1], imapresp.Tok):
+                        got_pairs.append((int(nm[7:-1]), it[k + 1].val))
+        part.stat('grouped-partials')
+        want_pairs = sorted((o_, want[o_:o_ + n_]) for o_, n_ in ranges)
+        if sorted(got_pairs) != want_pairs:
+            part.violation('monitor', f'{kind}: one FETCH asking for the ranges {ranges} was answered with {sorted(got_pairs)!r}, expected {want_pairs!r} (message {b!r})', rep,
+                           signature='grouped-partials')
+    except (imapresp.Malformed, ValueError):
+        part.stat(f'{kind}:grouped-partials-unreadable')
     # BODYSTRUCTURE octet counts vs BODY[part]  (its own command: a failure to *describe* the structure is C06/C07's subject)
     try:
         out = await c.send(b'a UID FETCH %d (BODYSTRUCTURE)\r\n' % uid)
